@@ -101,16 +101,22 @@ func (m *Model) mayRun(x int, leaves []u.PLeaf, skip DecoSet, out, seen map[stri
 		}
 		seen[key] = true
 		if !l.Key.IsGroup() {
-			// any decorator of the chain may be the one dig picks, depending
-			// on which are on the stack; the over-approximation takes the
-			// chain until the first one that cannot be on the stack here
-			// (i.e. all of them) and the provider.
+			// The decorators on the stack are exactly those on the resolution
+			// path (skip). The nearest decorator that is not being built is
+			// the one that supplies the key; outer decorators and the
+			// provider run only if that decorator (transitively) asks for
+			// the key itself, which the recursion covers.
+			var picked *Deco
 			for _, d := range m.DecoChain(x, l.Key) {
-				if skip[d] {
-					continue
+				if !skip[d] {
+					picked = d
+					break
 				}
-				out[d.Inst] = true
-				m.mayRun(d.Scope, d.P, skip.with(d), out, seen)
+			}
+			if picked != nil {
+				out[picked.Inst] = true
+				m.mayRun(picked.Scope, picked.P, skip.with(picked), out, seen)
+				continue
 			}
 			for _, c := range m.Prov(x, l.Key) {
 				out[c.Inst] = true
